@@ -30,6 +30,7 @@ pub proof fn lemma_insert_reached<P: Prefix, T>(m0: PrefixMap<P, T>, m1: PrefixM
         ins_content(m0, m1, p, v),
         m0.content().dom().contains(p.bits()) == m0.tab()[idx].value.is_some(),
         m0.tab()[idx].value.is_some() ==> m0.content()[p.bits()].1 == m0.tab()[idx].value.unwrap(),
+        m0.canon() ==> m1.canon(), // [C15]
 {
     let t0 = m0.tab(); let t1 = m1.tab(); let l0 = m0.live();
     assert(m1.live() =~= l0);
@@ -59,6 +60,12 @@ pub proof fn lemma_insert_reached<P: Prefix, T>(m0: PrefixMap<P, T>, m1: PrefixM
     }
     assert(upd_rel(t0, l0, t1, l0, p.bits(), Some((p, v))));
     lemma_content_upd(t0, l0, t1, l0, p.bits(), Some((p, v)));
+    if m0.canon() {
+        assert forall|n: int| #![trigger m1.live().contains(n)] m1.live().contains(n) && n != 0 && t1[n].value.is_none() implies t1[n].left.is_some() && t1[n].right.is_some() by {
+            assert(l0.contains(n));
+            if n != idx { assert(t1[n] == t0[n]); }
+        }
+    }
 }
 
 /// facts shared by the three "new node" cases: nothing with key q is stored, counting, content
@@ -120,6 +127,7 @@ pub proof fn lemma_insert_leaf<P: Prefix, T>(m0: PrefixMap<P, T>, m1: PrefixMap<
         m1.count as int == m0.count as int + 1, // [COUNT]
     ensures
         m1.wf_shape(), m1.wf_count(), ins_content(m0, m1, p, v), !m0.content().dom().contains(p.bits()),
+        m0.canon() ==> m1.canon(), // [C15]
 {
     let t0 = m0.tab(); let t1 = m1.tab(); let l0 = m0.live();
     let par = lemma_twf_par(t0, l0);
@@ -129,6 +137,11 @@ pub proof fn lemma_insert_leaf<P: Prefix, T>(m0: PrefixMap<P, T>, m1: PrefixMap<
     lemma_twf_intro(t1, l0.insert(new));
     assert(l0.insert(new).insert(new) =~= l0.insert(new));
     lemma_insert_new_common(m0, m1, idx, new, new, p, v);
+    if m0.canon() {
+        assert forall|n: int| #![trigger m1.live().contains(n)] m1.live().contains(n) && n != 0 && t1[n].value.is_none() implies t1[n].left.is_some() && t1[n].right.is_some() by {
+            if n != new { assert(l0.contains(n)); if n != idx { assert(t1[n] == t0[n]); } }
+        }
+    }
 }
 
 pub proof fn lemma_insert_child<P: Prefix, T>(m0: PrefixMap<P, T>, m1: PrefixMap<P, T>, idx: int, new: int, s: bool, cs: bool, c: int, p: P, v: T)
@@ -146,6 +159,7 @@ pub proof fn lemma_insert_child<P: Prefix, T>(m0: PrefixMap<P, T>, m1: PrefixMap
         m1.count as int == m0.count as int + 1, // [COUNT]
     ensures
         m1.wf_shape(), m1.wf_count(), ins_content(m0, m1, p, v), !m0.content().dom().contains(p.bits()),
+        m0.canon() ==> m1.canon(), // [C15]
 {
     let t0 = m0.tab(); let t1 = m1.tab(); let l0 = m0.live();
     let par = lemma_twf_par(t0, l0);
@@ -157,6 +171,11 @@ pub proof fn lemma_insert_child<P: Prefix, T>(m0: PrefixMap<P, T>, m1: PrefixMap
     lemma_twf_intro(t1, l0.insert(new));
     assert(l0.insert(new).insert(new) =~= l0.insert(new));
     lemma_insert_new_common(m0, m1, idx, new, new, p, v);
+    if m0.canon() {
+        assert forall|n: int| #![trigger m1.live().contains(n)] m1.live().contains(n) && n != 0 && t1[n].value.is_none() implies t1[n].left.is_some() && t1[n].right.is_some() by {
+            if n != new { assert(l0.contains(n)); if n != idx { assert(t1[n] == t0[n]); } }
+        }
+    }
 }
 
 pub proof fn lemma_insert_branch<P: Prefix, T>(m0: PrefixMap<P, T>, m1: PrefixMap<P, T>, idx: int, br: int, new: int, s: bool, ps: bool, c: int, bp: P, p: P, v: T)
@@ -182,6 +201,7 @@ pub proof fn lemma_insert_branch<P: Prefix, T>(m0: PrefixMap<P, T>, m1: PrefixMa
         m1.count as int == m0.count as int + 1, // [COUNT]
     ensures
         m1.wf_shape(), m1.wf_count(), ins_content(m0, m1, p, v), !m0.content().dom().contains(p.bits()),
+        m0.canon() ==> m1.canon(), // [C15]
 {
     let t0 = m0.tab(); let t1 = m1.tab(); let l0 = m0.live();
     let par = lemma_twf_par(t0, l0);
@@ -201,4 +221,9 @@ pub proof fn lemma_insert_branch<P: Prefix, T>(m0: PrefixMap<P, T>, m1: PrefixMa
     lemma_relink_branch(t0, l0, par, t1, idx, br, new, s, c, ps);
     lemma_twf_intro(t1, l0.insert(br).insert(new));
     lemma_insert_new_common(m0, m1, idx, new, br, p, v);
+    if m0.canon() {
+        assert forall|n: int| #![trigger m1.live().contains(n)] m1.live().contains(n) && n != 0 && t1[n].value.is_none() implies t1[n].left.is_some() && t1[n].right.is_some() by {
+            if n != new && n != br { assert(l0.contains(n)); if n != idx { assert(t1[n] == t0[n]); } }
+        }
+    }
 }
